@@ -2,3 +2,5 @@ import TaffyVerif.Num
 import TaffyVerif.Proto
 import TaffyVerif.Model.Geometry
 import TaffyVerif.Model.Cache
+import TaffyVerif.Model.Style
+import TaffyVerif.Drv.StyleParse
